@@ -133,6 +133,7 @@ type vfC26Srv struct {
 
 // enablement: enabled | never | failed-no-principals | failed-blank-principals
 func vfC26NewServer(enablement, callerKind, outcome string, limit int) *vfC26Srv {
+	vfC26Seq = 0 // per-execution determinism
 	h := NewHttpServer(NewServer())
 	if callerKind != "no-authenticator" {
 		h.SetAuthenticate(vfC26Authenticator)
@@ -163,12 +164,21 @@ type vfC26Resp struct {
 	reads  int
 }
 
+var vfC26Seq int
+
 func (s *vfC26Srv) post(x *venum.X, callerKind string, body []byte, declared int64) (vfC26Resp, bool) {
 	rb := &vfC26Body{r: bytes.NewReader(body)}
 	req := httptest.NewRequest("POST", IntrospectEndpoint, rb)
 	req.ContentLength = declared
 	req.Header.Set("Content-Type", "application/json")
-	req.Header.Set("X-Request-ID", "vf-c26")
+	// A caller is the authenticated principal: every request arrives over a
+	// fresh connection (new source port, another proxy hop) with its own
+	// correlation id, none of which may enter the per-caller accounting.
+	vfC26Seq++
+	req.RemoteAddr = fmt.Sprintf("192.0.2.%d:%d", 1+vfC26Seq%3, 40000+vfC26Seq%20000)
+	req.Header.Set("X-Forwarded-For", fmt.Sprintf("198.51.100.%d", 1+vfC26Seq%200))
+	req.Header.Set("User-Agent", fmt.Sprintf("vf-agent/%d", vfC26Seq%7))
+	req.Header.Set("X-Request-ID", fmt.Sprintf("vf-c26-%d", vfC26Seq))
 	req.Header.Set("X-Vf-Caller", callerKind)
 	rec := httptest.NewRecorder()
 	var panicked any
